@@ -230,19 +230,22 @@ TypeOK ==
   /\ verified \subseteq created
   /\ tried \subseteq Fns
 
-Init ==
-  /\ ci \in DOMAIN Cats
-  /\ opt \in ToSet(Cats[ci].opts)
+\* the initial state of a container over catalog c with options o
+InitWith(c, o) ==
+  /\ ci = c
+  /\ opt = o
   /\ created = {Root}
   /\ reg = <<>> /\ decs = {}
   /\ vals = {} /\ dvals = {} /\ grps = <<>> /\ dgrps = {}
   /\ called = {} /\ dcalled = {}
   /\ verified = {}
-  /\ execs = [f \in DOMAIN Cats[ci].fns |-> 0]
-  /\ okn   = [f \in DOMAIN Cats[ci].fns |-> 0]
+  /\ execs = [f \in DOMAIN Cats[c].fns |-> 0]
+  /\ okn   = [f \in DOMAIN Cats[c].fns |-> 0]
   /\ stack = <<>> /\ fail = NoFail /\ cur = NoCall
   /\ tried = {} /\ ninv = 0 /\ nfault = 0
   /\ log = <<>> /\ ret = Ret("", "", 0, {})
+
+Init == \E c \in DOMAIN Cats : \E o \in ToSet(Cats[c].opts) : InitWith(c, o)
 
 Idle == ~cur.active
 
